@@ -374,6 +374,42 @@ func TestVerifC07Library(t *testing.T) {
 		for k := 1 + rng.Intn(4); k > 0; k-- {
 			suites[fmt.Sprintf("f%d.yaml", k)] = vfRandSuite(rng, fmt.Sprintf("Suite %d", rng.Intn(5)))
 		}
+		if rng.Chance(1, 4) {
+			// a twin suite: same simple test names as an existing suite, client mode, raw-ness of every case flipped
+			// (simple names are unique only within a suite; whatever is keyed by them must not leak across suites)
+			for _, k := range verifkit.SortedKeys(suites) {
+				src := suites[k]
+				twin := proto.Clone(src).(*conformancev1.TestSuite)
+				twin.Name = src.Name + " twin"
+				twin.Mode = conformancev1.TestSuite_TEST_MODE_CLIENT
+				for ti, tc := range twin.TestCases {
+					tc.Request.RawRequest = nil
+					_ = ti
+					if len(tc.Request.RequestMessages) > 0 {
+						tc.Request.RequestMessages = nil
+						continue
+					}
+					var m proto.Message
+					raw := &conformancev1.RawHTTPResponse{StatusCode: 200}
+					switch tc.Request.StreamType {
+					case 1:
+						m = &conformancev1.UnaryRequest{ResponseDefinition: &conformancev1.UnaryResponseDefinition{RawResponse: raw}}
+					case 2:
+						m = &conformancev1.ClientStreamRequest{ResponseDefinition: &conformancev1.UnaryResponseDefinition{RawResponse: raw}}
+					case 3:
+						m = &conformancev1.ServerStreamRequest{ResponseDefinition: &conformancev1.StreamResponseDefinition{RawResponse: raw}}
+					default:
+						m = &conformancev1.BidiStreamRequest{ResponseDefinition: &conformancev1.StreamResponseDefinition{RawResponse: raw}}
+					}
+					a, _ := anypb.New(m)
+					tc.Request.RequestMessages = []*anypb.Any{a}
+					tc.ExpectedResponse = &conformancev1.ClientResponseResult{}
+				}
+				suites["twin-"+k] = twin
+				rep.Count("twin_suites", 1)
+				break
+			}
+		}
 		var cases []configCase
 		label := ""
 		switch rng.Intn(5) {
